@@ -29,9 +29,13 @@ def showOut (st : St) (o : Out) : String :=
   " w=" ++ (match o.wait with | some w => toString w | none => "-")
 
 /-- none: malformed word; some none: a datagram that does not parse -/
-def parseEvents : Nat → List String → Option (Option (List Async.Ev))
+def parseEvents : Nat → List String → Option (Option (List Async.EvT))
   | _, [] => some (some [])
   | 0, _ => none
+  | n + 1, "dr" :: k :: rest => do
+    let k ← k.toNat?
+    let more ← parseEvents n rest
+    pure (more.map fun evs => Async.EvT.delRes k :: evs)
   | n + 1, "rx" :: peer :: act :: verdict :: hex :: rest => do
     let peer ← peer.toNat?
     if peer > 15 then none else
@@ -40,33 +44,33 @@ def parseEvents : Nat → List String → Option (Option (List Async.Ev))
     let bs ← bytesOfHex hex
     let more ← parseEvents n rest
     match Coap.M.parse .udp bs, more with
-    | .ok msg, some evs => pure (some (Async.Ev.rx peer defer ⟨false, msg, v, .absent⟩ :: evs))
+    | .ok msg, some evs => pure (some (.ev (Async.Ev.rx peer defer ⟨false, msg, v, .absent⟩) :: evs))
     | _, _ => pure none
   | n + 1, "io" :: dt :: verdict :: rest => do
     let dt ← dt.toNat?
     let v ← parseVerdict verdict
     let more ← parseEvents n rest
-    pure (more.map fun evs => Async.Ev.io dt v :: evs)
+    pure (more.map fun evs => Async.EvT.ev (Async.Ev.io dt v) :: evs)
   | n + 1, "tr" :: k :: rest => do
     let k ← k.toNat?
     let more ← parseEvents n rest
-    pure (more.map fun evs => Async.Ev.trigger k :: evs)
+    pure (more.map fun evs => Async.EvT.ev (Async.Ev.trigger k) :: evs)
   | n + 1, "sd" :: k :: d :: rest => do
     let k ← k.toNat?
     let d ← d.toNat?
     let more ← parseEvents n rest
-    pure (more.map fun evs => Async.Ev.setDelay k d :: evs)
+    pure (more.map fun evs => Async.EvT.ev (Async.Ev.setDelay k d) :: evs)
   | n + 1, "fr" :: k :: rest => do
     let k ← k.toNat?
     let more ← parseEvents n rest
-    pure (more.map fun evs => Async.Ev.free k :: evs)
+    pure (more.map fun evs => Async.EvT.ev (Async.Ev.free k) :: evs)
   | _, _ => none
 
-def runShow (c : Async.Cfg) (dec : Dec) : St → List Async.Ev → List String
+def runShow (c : Async.Cfg) (cfg : Server.Cfg) : StT → List Async.EvT → List String
   | _, [] => []
   | st, ev :: r =>
-    let x := step c dec st ev
-    if outInScope x.2 then showOut x.1 x.2 :: runShow c dec x.1 r else ["oos"]
+    let x := stepT c cfg st ev
+    if outInScope x.2 then showOut x.1.st x.2 :: runShow c cfg x.1 r else ["oos"]
 
 /-- virtual clock starts at SIM_T0 = 1000 (1 tick = 1 ms); session->tx_mid of a new session is 0x8080 (sim_prng_fill = 128) -/
 def stepa (args : List String) : String :=
@@ -76,7 +80,7 @@ def stepa (args : List String) : String :=
     match parseCfg mpr mts known unk prx res, tmo.toNat?, parseEvents 64 evs with
     | some (cfg, tbl), some tmo, some (some evs) =>
       if tmo = 0 ∨ tmo > 1000 then "bad-op" else
-      "M " ++ String.intercalate " ;; " (runShow ⟨1000, tmo * 1000, 32896⟩ (serverDec cfg (M.implTable tbl)) (St.init ⟨1000, tmo * 1000, 32896⟩) evs)
+      "M " ++ String.intercalate " ;; " (runShow ⟨1000, tmo * 1000, 32896⟩ cfg ⟨St.init ⟨1000, tmo * 1000, 32896⟩, M.implTable tbl⟩ evs)
     | some _, some _, some none => "M malformed"
     | _, _, _ => "bad-op"
   | _ => "bad-op"
